@@ -174,13 +174,15 @@ func (i *Int) Clone() kyber.Scalar {
 
 // Zero set the Int to the value 0.  The modulus must already be initialized.
 func (i *Int) Zero() kyber.Scalar {
-	i.V = *compatible.NewInt(0)
+	// reduce so that the value has the limb count of the modulus, which the
+	// bigmod arithmetic and comparisons require of every operand
+	i.V = *compatible.NewInt(0).Mod(compatible.NewInt(0), i.M)
 	return i
 }
 
 // One sets the Int to the value 1.  The modulus must already be initialized.
 func (i *Int) One() kyber.Scalar {
-	i.V = *compatible.NewInt(1)
+	i.V = *compatible.NewInt(0).Mod(compatible.NewInt(1), i.M)
 	return i
 }
 
